@@ -278,6 +278,17 @@ def _run_angles(case, ck):
             ck.metric("rot_deg_vs_rad", e)
             ck.true("rot-degrees", e <= 1e-13,
                     "degrees form differs from radians by %.2e" % e)
+            # the flag in other falsy / truthy forms
+            for flag, deg in ((np.False_, True), (0, True),
+                              (np.bool_(False), True), (np.True_, False),
+                              (1, False)):
+                args = [math.degrees(v) if deg else v for v in (al, be, ga)]
+                Rf = np.asarray(rotation_matrix(*args, radians=flag))
+                ck.trans += 1
+                e = np.abs(Rf - ref).max()
+                ck.true("rot-degrees", e <= 1e-13, "rotation_matrix(..., "
+                        "radians=%r) differs from the documented matrix by "
+                        "%.2e" % (flag, e))
             Q = np.asarray(rotate_points(P, al, be, ga))
             ck.trans += 1
             e = np.abs(Q - P @ ref.T).max() / 1e3
